@@ -307,7 +307,18 @@ func workerMain() {
 						res.Err = "HARNESS: " + msg
 					}
 				}
-				if res.Err == "" {
+				if res.Err == "" && j.Det {
+					// whole-scenario job: iterate the bound so that the first counterexample has the fewest
+					// deviations and a failing scenario is not explored any deeper
+					for b := 0; b <= j.Bound; b++ {
+						rb := newResult()
+						explore(s, nil, 0, b, rb, time.Time{})
+						if b == j.Bound || len(rb.Fails) > 0 || rb.Err != "" {
+							res = rb
+							break
+						}
+					}
+				} else if res.Err == "" {
 					explore(s, j.Prefix, j.Used, j.Bound, res, time.Time{})
 				}
 			}
